@@ -411,6 +411,7 @@ package sse
 //@   ensures type_single_line: fieldwf(e.Type)
 //@   ensures chunks_single_line: chunkswf(e)
 //@   ensures success_has_a_field: result == nil ==> len(e.chunks) > 0 || e.Type.set || e.Retry != 0 || e.ID.set
+//@   ensures complete_input_with_a_field_succeeds: reached(0) ==> (s.err == nil && (atexit(0, len(e.chunks)) > 0 || atexit(0, e.Type.set) || atexit(0, e.Retry) != 0 || atexit(0, e.ID.set)) ==> result == nil)
 //@   ensures never_reuses_the_old_array: cap(e.chunks) == 0 || fresh(backing(e.chunks))
 //@   invariant 0 own_array: cap(e.chunks) == 0 || fresh(backing(e.chunks))
 //@   invariant 0 fields_single_line: fieldwf(e.ID) && fieldwf(e.Type) && chunkswf(e)
@@ -817,6 +818,7 @@ package sse
 //@   step 0 id_sets_the_last_event_id: f.Name == "id" && indexbyte(f.Value, 0) == -1 ==> lastEventID == f.Value && dirty && sb == prev(sb) && typ == prev(typ) && ncalls() == prev(ncalls())
 //@   step 0 id_with_nul_is_ignored: f.Name == "id" && indexbyte(f.Value, 0) != -1 ==> lastEventID == prev(lastEventID) && dirty == prev(dirty) && sb == prev(sb) && typ == prev(typ) && ncalls() == prev(ncalls())
 //@   step 0 retry_only_for_digit_strings: forall(x, prev(ncalls()), ncalls(), iscall(x, "onRetry") ==> f.Name == "retry" && len(f.Value) > 0 && alldigits(f.Value))
+//@   step 0 valid_retry_is_forwarded_with_its_decimal_value: f.Name == "retry" && len(f.Value) > 0 && alldigits(f.Value) && parseIok(f.Value) && onRetry != nil ==> ncalls() == prev(ncalls()) + 1 && iscall(prev(ncalls()), "onRetry") && carg(prev(ncalls()), "onRetry", 0) == parseIval(f.Value)
 //@   step 0 retry_changes_nothing_else: f.Name == "retry" ==> sb == prev(sb) && typ == prev(typ) && lastEventID == prev(lastEventID) && ncalls() <= prev(ncalls()) + 1 &&
 //@       dirty == (prev(dirty) || ncalls() > prev(ncalls())) && forall(x, prev(ncalls()), ncalls(), iscall(x, "onRetry"))
 //@   step 0 blank_line_dispatches_a_dirty_event: f.Name == "" && prev(dirty) ==> ncalls() == prev(ncalls()) + 1 && isyield(prev(ncalls())) && yielderr(prev(ncalls())) == nil &&
@@ -834,6 +836,10 @@ package sse
 //@   ensures default_limit_otherwise: !(len(c.buf) != 0 || c.bufMaxSize > 0) ==> scmax(result.inputScanner) == 0
 //@   ensures parser_is_new: fresh(result) && fresh(result.fieldScanner)
 //@   ensures parser_ready: result != nil && result.inputScanner != nil && result.fieldScanner != nil && !result.fieldScanner.keepComments && result.fieldScanner.err == nil && sctok(result.inputScanner) == ""
+
+// the onRetry callback Connection.read hands to the interpreter: the server's value, in milliseconds, goes to setRetry
+//@ func Connection.read$2
+//@   ensures server_retry_value_reaches_the_schedule_in_milliseconds: ncalls() == old(ncalls()) + 1 && iscall(old(ncalls()), "setRetry") && carg(old(ncalls()), "setRetry", 0) == r * 1000000
 
 //@ pure isdispatch(x) = iscall(x, "dispatch")
 //@ pure dispatched(x) = carg(x, "dispatch", 0)
